@@ -1,4 +1,4 @@
-import Cppcheck.Model.Addon
+import Cppcheck.Proofs.Addon
 /-
 C34 — property theorems about the addon relay model.
 -/
@@ -21,7 +21,7 @@ theorem convert_mkLine_gen (o : Opts) (a e m s fl : Str) (l c : Int) :
       | none => .skip
       | some sv => .report ⟨a ++ ['-'] ++ e, sv, m, [⟨fl, l, c, []⟩], none, none⟩ := by
   cases hd : decideSev o (a ++ ['-'] ++ e) s <;>
-    simp [convert, mkLine, has, lookup, getStr, getInt] <;> simp_all
+    simp [convert, locsOf, optInt, mkLine, has, lookup, getStr, getInt] <;> simp_all
 
 /-- **a well-formed line of an enabled severity is relayed with exactly the given fields**:
     id `<addon>-<errorId>`, the location, severity and message the addon gave -/
@@ -33,11 +33,6 @@ theorem convert_mkLine (o : Opts) (a e m s fl : Str) (l c : Int) (h : reportable
   have h2' : sevOfStr s ≠ .internal := by simpa using h2
   rw [convert_mkLine_gen]
   simp [decideSev, h1', h2', h3]
-
-/-- lines that `executeAddon` skips -/
-def Line.skipped : Line → Bool
-  | .empty | .checking | .badJson => true
-  | _ => false
 
 /-- a line of a disabled (or none/internal) severity is dropped silently -/
 theorem convert_mkLine_filtered (o : Opts) (a e m s fl : Str) (l c : Int)
@@ -167,78 +162,190 @@ theorem relay_sound (o : Opts) (ls : List Line) (f : Finding) (h : f ∈ (relay 
       obtain ⟨ob, hm, hc⟩ := relayObjs_sound o objs f h
       exact ⟨ob, validate_mem ls objs hv ob hm, hc⟩
 
-/-- **severity gate**: a relayed finding has an enabled severity (or is an internal `-logChecker` note),
-    and its id is `<addon>-<errorId>` of its line -/
+/-! ### one object: any member order, any further members, `file` members or a `loc` array -/
+
+/-- **a finding line with `file`/`linenr`/`column` members** (whatever else the object carries, in whatever
+    order): reported under `<addon>-<errorId>` at exactly that location with exactly that message, the decided
+    severity, and the cwe / hash members when present -/
+theorem convert_file_general (o : Opts) (ob : ObjLine) (a e m s fl : Str) (l c : Int) (sv : Sev) (cw hs : Option Int)
+    (h0 : has "summary" ob.fields = false) (hm : ob.metric = none)
+    (hf : getStr "file" ob.fields = some fl) (hl : getInt "linenr" ob.fields = some l) (hc : getInt "column" ob.fields = some c)
+    (ha : getStr "addon" ob.fields = some a) (he : getStr "errorId" ob.fields = some e)
+    (hmsg : getStr "message" ob.fields = some m) (hs' : getStr "severity" ob.fields = some s)
+    (hd : decideSev o (a ++ ['-'] ++ e) s = some sv)
+    (hcwe : optInt "cwe" ob.fields = some cw) (hh : optInt "hash" ob.fields = some hs) :
+    convert o ob = .report ⟨a ++ ['-'] ++ e, sv, m, [⟨fl, l, c, []⟩], cw, hs⟩ := by
+  have hd' : decideSev o (a ++ '-' :: e) s = some sv := by simpa using hd
+  have hfile : has "file" ob.fields = true := by
+    simp only [has, getStr] at hf ⊢
+    cases hlk : lookup "file" ob.fields <;> simp_all
+  simp [convert, locsOf, h0, hfile, hf, hl, hc, hm, ha, he, hmsg, hs', hd', hcwe, hh]
+
+/-- **a finding line with a `loc` array**: one location per array element, in order, each with exactly the
+    `file`, `linenr`, `column`, `info` members of its element -/
+theorem convert_general (o : Opts) (ob : ObjLine) (a e m s : Str) (items : List (Option Fields)) (ls : List Loc) (sv : Sev)
+    (cw hs : Option Int)
+    (h0 : has "summary" ob.fields = false) (h1 : has "file" ob.fields = false) (hl : ob.loc = .arr items)
+    (hc : locItems items ls) (hm : ob.metric = none)
+    (ha : getStr "addon" ob.fields = some a) (he : getStr "errorId" ob.fields = some e)
+    (hmsg : getStr "message" ob.fields = some m) (hs' : getStr "severity" ob.fields = some s)
+    (hd : decideSev o (a ++ ['-'] ++ e) s = some sv)
+    (hcwe : optInt "cwe" ob.fields = some cw) (hh : optInt "hash" ob.fields = some hs) :
+    convert o ob = .report ⟨a ++ ['-'] ++ e, sv, m, ls, cw, hs⟩ := by
+  have hd' : decideSev o (a ++ '-' :: e) s = some sv := by simpa using hd
+  have hc' := (convLocs_eq_some_iff items ls).mpr hc
+  simp [convert, locsOf, h0, h1, hl, hc', hm, ha, he, hmsg, hs', hd', hcwe, hh]
+
+/-- a finding line without `file` and without `loc`: reported without location -/
+theorem convert_noloc_general (o : Opts) (ob : ObjLine) (a e m s : Str) (sv : Sev) (cw hs : Option Int)
+    (h0 : has "summary" ob.fields = false) (h1 : has "file" ob.fields = false) (hl : ob.loc = .absent) (hm : ob.metric = none)
+    (ha : getStr "addon" ob.fields = some a) (he : getStr "errorId" ob.fields = some e)
+    (hmsg : getStr "message" ob.fields = some m) (hs' : getStr "severity" ob.fields = some s)
+    (hd : decideSev o (a ++ ['-'] ++ e) s = some sv)
+    (hcwe : optInt "cwe" ob.fields = some cw) (hh : optInt "hash" ob.fields = some hs) :
+    convert o ob = .report ⟨a ++ ['-'] ++ e, sv, m, [], cw, hs⟩ := by
+  have hd' : decideSev o (a ++ '-' :: e) s = some sv := by simpa using hd
+  simp [convert, locsOf, h0, h1, hl, hm, ha, he, hmsg, hs', hd', hcwe, hh]
+
+theorem decideSev_some (o : Opts) (id s : Str) (sv : Sev) (h : decideSev o id s = some sv) :
+    (sv = .internal ∧ endsWith id "-logChecker".toList = true ∧ (sevOfStr s = .none ∨ sevOfStr s = .internal)) ∨
+    (sv = sevOfStr s ∧ o.enabled sv = true ∧ sv ≠ .none ∧ sv ≠ .internal) := by
+  unfold decideSev at h
+  split at h
+  · rename_i hn
+    split at h
+    · rename_i hl
+      simp only [Option.some.injEq] at h
+      exact Or.inl ⟨h.symm, hl, hn⟩
+    · simp at h
+  · rename_i hn
+    split at h
+    · rename_i hen
+      simp only [Option.some.injEq] at h
+      subst h
+      exact Or.inr ⟨rfl, hen, fun h => hn (Or.inl h), fun h => hn (Or.inr h)⟩
+    · simp at h
+
+/-- **nothing about a relayed finding is invented** (the converse of the three theorems above): the line is
+    no summary and no metric; id = `<addon>-<errorId>` and the message are the line's members; the severity is
+    the one the line names and it is enabled (or the finding is an internal `-logChecker` note); the locations are
+    exactly those of the `file` members or of the `loc` array; cwe and hash are the line's members or unset -/
 theorem convert_report_props (o : Opts) (ob : ObjLine) (f : Finding) (h : convert o ob = .report f) :
+    has "summary" ob.fields = false ∧ ob.metric = none ∧
+    (∃ a e s, getStr "addon" ob.fields = some a ∧ getStr "errorId" ob.fields = some e ∧
+      getStr "severity" ob.fields = some s ∧ f.id = a ++ ['-'] ++ e ∧ decideSev o f.id s = some f.sev) ∧
     (f.sev = .internal ∨ o.enabled f.sev = true) ∧
-    (∃ a e, getStr "addon" ob.fields = some a ∧ getStr "errorId" ob.fields = some e ∧ f.id = a ++ ['-'] ++ e) ∧
-    getStr "message" ob.fields = some f.msg := by
+    getStr "message" ob.fields = some f.msg ∧
+    locsOf ob = some f.locs ∧ optInt "cwe" ob.fields = some f.cwe ∧ optInt "hash" ob.fields = some f.hash := by
   unfold convert at h
   simp only at h
   split at h
   · simp at h
-  · split at h
+  · rename_i hsum
+    split at h
     · simp at h
-    · split at h
+    · rename_i locs hlocs
+      split at h
       · simp at h
       · simp at h
-      · split at h
+      · rename_i hmet
+        split at h
         · rename_i a e m s ha he hm hs
           split at h
           · simp at h
           · rename_i sv hdec
             split at h
-            · simp only [Conv.report.injEq] at h
+            · rename_i c hh hcwe hhash
+              simp only [Conv.report.injEq] at h
               subst h
-              refine ⟨?_, ⟨a, e, ha, he, rfl⟩, hm⟩
-              unfold decideSev at hdec
-              split at hdec
-              · split at hdec
-                · simp at hdec; left; exact hdec.symm
-                · simp at hdec
-              · split at hdec
-                · rename_i hen
-                  simp at hdec; subst hdec; right; exact hen
-                · simp at hdec
+              refine ⟨by simpa using hsum, hmet, ⟨a, e, s, ha, he, hs, rfl, hdec⟩, ?_, hm, hlocs, hcwe, hhash⟩
+              rcases decideSev_some o _ s sv hdec with ⟨h1, _, _⟩ | ⟨_, h2, _, _⟩
+              · exact Or.inl h1
+              · exact Or.inr h2
             · simp at h
         · simp at h
 
-/-- **malformed output or a failing addon is an internal error, never more**: the invocation fails
-    exactly when the addon exits non-zero, prints a line that does not start with `{`, or prints an
-    object with a missing / ill-typed member -/
-theorem relayObjs_failed_iff (o : Opts) : ∀ objs : List ObjLine,
-    (relayObjs o objs).isFailed = true ↔ ∃ ob ∈ objs, convert o ob = .throw ∧
-      True := by
-  intro objs
-  induction objs with
-  | nil => simp [relayObjs, Outcome.isFailed]
-  | cons ob r ih =>
-    simp only [relayObjs]
-    cases hc : convert o ob with
-    | throw => simp [Outcome.isFailed, hc]
-    | skip =>
-      simp only [ih, List.mem_cons, and_true]
-      constructor
-      · rintro ⟨x, hx, hxc⟩; exact ⟨x, Or.inr hx, hxc⟩
-      · rintro ⟨x, hx | hx, hxc⟩
-        · subst hx; rw [hc] at hxc; simp at hxc
-        · exact ⟨x, hx, hxc⟩
-    | report g =>
-      dsimp only
-      cases hr : relayObjs o r with
-      | ok fs =>
-        rw [hr] at ih
-        simp only [Outcome.isFailed, Bool.false_eq_true, false_iff] at ih ⊢
-        rintro ⟨x, hx, hxc, _⟩
-        rcases List.mem_cons.mp hx with hx | hx
-        · subst hx; rw [hc] at hxc; simp at hxc
-        · exact ih ⟨x, hx, hxc, trivial⟩
-      | failed fs =>
-        rw [hr] at ih
-        simp only [Outcome.isFailed, true_iff] at ih ⊢
-        obtain ⟨x, hx, hxc⟩ := ih
-        exact ⟨x, List.mem_cons_of_mem _ hx, hxc⟩
+/-- the locations `locsOf` yields, spelled out: the `file` members win over `loc`; no `file` and no `loc` = no location -/
+theorem locsOf_cases (ob : ObjLine) (ls : List Loc) (h : locsOf ob = some ls) :
+    (has "file" ob.fields = true ∧ ∃ fl l c, getStr "file" ob.fields = some fl ∧ getInt "linenr" ob.fields = some l ∧
+        getInt "column" ob.fields = some c ∧ ls = [⟨fl, l, c, []⟩]) ∨
+    (has "file" ob.fields = false ∧ ob.loc = .absent ∧ ls = []) ∨
+    (has "file" ob.fields = false ∧ ∃ items, ob.loc = .arr items ∧ locItems items ls) := by
+  unfold locsOf at h
+  split at h
+  · rename_i hf
+    split at h
+    · rename_i fl l c h1 h2 h3
+      simp only [Option.some.injEq] at h
+      exact Or.inl ⟨hf, fl, l, c, h1, h2, h3, h.symm⟩
+    · simp at h
+  · rename_i hf
+    have hf' : has "file" ob.fields = false := by simpa using hf
+    split at h
+    · rename_i hl
+      simp only [Option.some.injEq] at h
+      exact Or.inr (Or.inl ⟨hf', hl, h.symm⟩)
+    · simp at h
+    · rename_i items hl
+      exact Or.inr (Or.inr ⟨hf', items, hl, (convLocs_eq_some_iff items ls).mp h⟩)
 
+/-! ### one addon invocation: every output -/
+
+/-- the finding a line is converted to, if any -/
+def reportedLine (o : Opts) : Line → Option Finding
+  | .obj ob => reported o ob
+  | _ => none
+
+/-- **every output of an addon that exits with 0 and prints no non-brace line**, whatever its lines are
+    (objects of any shape, empty / `Checking` / unparsable lines anywhere): the findings handed to the logger are
+    exactly the conversions of the object lines in front of the first object with a missing / ill-typed member, in
+    output order, each once; and the invocation fails iff there is such an object -/
+theorem relay_general (o : Opts) (hx : o.exitcode = 0) (lines : List Line) (hnb : ∀ l ∈ lines, l ≠ .notBrace) :
+    (relay o lines).findings = ((objsOf lines).takeWhile fun ob => convert o ob ≠ .throw).filterMap (reported o) ∧
+    (relay o lines).isFailed = throws o (objsOf lines) := by
+  simp only [relay, hx, ne_eq, not_true_eq_false, if_false, validate_objsOf lines hnb]
+  exact ⟨relayObjs_findings o _, relayObjs_isFailed o _⟩
+
+theorem filterMap_objsOf (o : Opts) (lines : List Line) :
+    (objsOf lines).filterMap (reported o) = lines.filterMap (reportedLine o) := by
+  induction lines with
+  | nil => rfl
+  | cons l r ih =>
+    cases l <;> simp [objsOf, reportedLine, List.filterMap_cons] at ih ⊢ <;> try exact ih
+    rename_i ob
+    cases reported o ob <;> simp [ih]
+
+/-- **each well-formed line exactly once, in order — general form**: when no object has a missing / ill-typed
+    member, the relayed findings are the conversions of ALL object lines, in output order, each once -/
+theorem relay_ok_general (o : Opts) (hx : o.exitcode = 0) (lines : List Line) (hnb : ∀ l ∈ lines, l ≠ .notBrace)
+    (hnt : ∀ ob, Line.obj ob ∈ lines → convert o ob ≠ .throw) :
+    relay o lines = .ok (lines.filterMap (reportedLine o)) := by
+  obtain ⟨h1, h2⟩ := relay_general o hx lines hnb
+  have hall : ∀ ob ∈ objsOf lines, (decide (convert o ob ≠ .throw)) = true := by
+    intro ob hob
+    simp only [objsOf, List.mem_filterMap] at hob
+    obtain ⟨l, hl, hlo⟩ := hob
+    cases l <;> simp at hlo
+    subst hlo
+    simpa using hnt _ hl
+  rw [takeWhile_eq_self_of_all _ _ hall, filterMap_objsOf] at h1
+  have h3 : throws o (objsOf lines) = false := by
+    rw [throws_false_iff]; intro ob hob; simpa using hall ob hob
+  rw [h3] at h2
+  cases hr : relay o lines with
+  | ok fs => rw [hr] at h1; simp only [Outcome.findings] at h1; rw [h1]
+  | failed fs => rw [hr] at h2; simp [Outcome.isFailed] at h2
+
+/-- the conversion loop fails exactly when some object has a missing / ill-typed member -/
+theorem relayObjs_failed_iff (o : Opts) (objs : List ObjLine) :
+    (relayObjs o objs).isFailed = true ↔ ∃ ob ∈ objs, convert o ob = .throw := by
+  rw [relayObjs_isFailed]; simp [throws]
+
+/-- **malformed output or a failing addon is an internal error, never more**: the invocation fails (⇒ one
+    `internalError` finding) exactly when the addon exits non-zero, prints a line that does not start with `{`
+    (well-formed lines in front of it are lost too: the whole output is discarded), or prints an object with a
+    missing / ill-typed member.  That the process does not crash is NOT a theorem (the model has no such
+    outcome): it is observed on the real binary for every class of `outClass` on every run. -/
 theorem relay_failed_iff (o : Opts) (ls : List Line) :
     (relay o ls).isFailed = true ↔
       o.exitcode ≠ 0 ∨ validate ls = none ∨ ∃ objs, validate ls = some objs ∧ ∃ ob ∈ objs, convert o ob = .throw := by
@@ -250,41 +357,226 @@ theorem relay_failed_iff (o : Opts) (ls : List Line) :
     | some objs =>
       simp only [reduceCtorEq, Option.some.injEq, false_or, exists_eq_left']
       rw [relayObjs_failed_iff]
-      simp
   · simp [hx, Outcome.isFailed]
+
+/-- the classes of the evidence are the cases of `relay_failed_iff` -/
+theorem outClass_failed_iff (o : Opts) (ls : List Line) :
+    (relay o ls).isFailed = true ↔ outClass o ls = .exitNonZero ∨ outClass o ls = .nonBrace ∨ outClass o ls = .illTyped := by
+  unfold relay outClass
+  by_cases hx : o.exitcode = 0
+  · simp only [hx, ne_eq, not_true_eq_false, if_false]
+    cases hv : validate ls with
+    | none => simp [Outcome.isFailed]
+    | some objs =>
+      simp only [relayObjs_isFailed]
+      cases ht : throws o objs <;> simp
+      split <;> simp
+  · simp [hx, Outcome.isFailed]
+
+
+/-! ### what is printed: suppressions and the duplicate filters (the function the driver runs) -/
+
+/-- the candidates for printing: not of severity internal, not suppressed -/
+def printable (supp : SuppView → Bool) (f : Finding) : Bool := f.sev ≠ .internal && !supp f.suppView
+
+/-- **what cppcheck prints for one addon invocation** (`relayShown` = relay, then suppressions, then the
+    duplicate filter): a sub-sequence of the relayed, unsuppressed findings (nothing invented, order kept),
+    with pairwise different rendered texts, in which every rendered text is represented by the FIRST finding
+    that renders to it -/
+theorem relayShown_spec (o : Opts) (supp : SuppView → Bool) (lines : List Line) :
+    (relayShown o supp lines).Sublist ((relay o lines).findings.filter (printable supp)) ∧
+    ((relayShown o supp lines).map Finding.key).Nodup ∧
+    ∀ k, (relayShown o supp lines).find? (fun g => g.key = k) =
+         ((relay o lines).findings.filter (printable supp)).find? (fun g => g.key = k) :=
+  ⟨dedup_sublist _, dedup_nodup _, dedup_find _⟩
+
+/-- **the binary's behaviour on well-formed output**: for an addon exiting 0 whose output has no non-brace line
+    and no object with a missing / ill-typed member, what is printed is the duplicate filter applied to the
+    conversions of all object lines that are not suppressed (and not internal), in output order: every such line
+    appears, in the order of first occurrence, exactly once per distinct rendered text -/
+theorem relayShown_wellformed (o : Opts) (hx : o.exitcode = 0) (supp : SuppView → Bool) (lines : List Line)
+    (hnb : ∀ l ∈ lines, l ≠ .notBrace) (hnt : ∀ ob, Line.obj ob ∈ lines → convert o ob ≠ .throw) :
+    relayShown o supp lines = dedup ((lines.filterMap (reportedLine o)).filter (printable supp)) := by
+  simp only [relayShown, relay_ok_general o hx lines hnb hnt, Outcome.findings]
+  rfl
+
+/-- **every well-formed line of an enabled severity is shown** (the reading of "reports each finding" that the
+    code satisfies): for every object line of such an output that converts to a finding `f` which is neither
+    internal nor suppressed, a finding with the id, severity, message and locations of `f` (its rendered text) is
+    printed.  Two lines that render to the same text are printed once; cwe / hash of the later ones are not shown -/
+theorem relayShown_complete (o : Opts) (hx : o.exitcode = 0) (supp : SuppView → Bool) (lines : List Line)
+    (hnb : ∀ l ∈ lines, l ≠ .notBrace) (hnt : ∀ ob, Line.obj ob ∈ lines → convert o ob ≠ .throw)
+    (ob : ObjLine) (f : Finding) (hob : Line.obj ob ∈ lines) (hc : convert o ob = .report f)
+    (hp : printable supp f = true) :
+    ∃ g ∈ relayShown o supp lines, g.key = f.key := by
+  rw [relayShown_wellformed o hx supp lines hnb hnt]
+  apply dedup_complete
+  simp only [List.mem_filter, List.mem_filterMap]
+  exact ⟨⟨.obj ob, hob, by simp [reportedLine, reported, hc]⟩, hp⟩
+
+/-- "each well-formed line is printed exactly once" is FALSE of what the binary does: two identical lines are
+    printed once (the duplicate filter of the loggers) -/
+theorem relayShown_once_per_line_counterexample :
+    ¬ ∀ (o : Opts) (supp : SuppView → Bool) (lines : List Line), o.exitcode = 0 → (∀ l ∈ lines, l ≠ .notBrace) →
+        (∀ ob, Line.obj ob ∈ lines → convert o ob ≠ .throw) →
+        relayShown o supp lines = (lines.filterMap (reportedLine o)).filter (printable supp) := by
+  intro h
+  have := h ⟨fun _ => true, 0⟩ (fun _ => false)
+    [.obj (mkLine "my".toList "e1".toList "m".toList "style".toList "t.c".toList 1 3),
+     .obj (mkLine "my".toList "e1".toList "m".toList "style".toList "t.c".toList 1 3)] rfl (by decide)
+    (by intro ob hob; simp only [List.mem_cons, Line.obj.injEq, List.not_mem_nil, or_false, or_self] at hob; subst hob; decide)
+  exact absurd this (by decide)
+
+/-- … and TRUE when the rendered texts of the lines are pairwise different -/
+theorem relayShown_once_per_line_partial (o : Opts) (hx : o.exitcode = 0) (supp : SuppView → Bool) (lines : List Line)
+    (hnb : ∀ l ∈ lines, l ≠ .notBrace) (hnt : ∀ ob, Line.obj ob ∈ lines → convert o ob ≠ .throw)
+    (hk : ((((lines.filterMap (reportedLine o)).filter (printable supp))).map Finding.key).Nodup) :
+    relayShown o supp lines = (lines.filterMap (reportedLine o)).filter (printable supp) := by
+  rw [relayShown_wellformed o hx supp lines hnb hnt, dedup_eq_self _ hk]
+
+/-- a finding that differs from an earlier one only in what is not rendered (cwe here) is not printed: its cwe
+    never reaches the report (finding F34a) -/
+theorem relayShown_loses_cwe_counterexample :
+    ¬ ∀ (o : Opts) (supp : SuppView → Bool) (lines : List Line) (ob : ObjLine) (f : Finding), o.exitcode = 0 →
+        (∀ l ∈ lines, l ≠ .notBrace) → (∀ ob, Line.obj ob ∈ lines → convert o ob ≠ .throw) →
+        Line.obj ob ∈ lines → convert o ob = .report f → printable supp f = true → f ∈ relayShown o supp lines := by
+  intro h
+  let l1 : ObjLine := mkLine "my".toList "e1".toList "m".toList "style".toList "t.c".toList 1 3
+  let l2 : ObjLine := { l1 with fields := l1.fields ++ [("cwe".toList, .int 476)] }
+  have := h ⟨fun _ => true, 0⟩ (fun _ => false) [.obj l1, .obj l2] l2
+    ⟨"my-e1".toList, .style, "m".toList, [⟨"t.c".toList, 1, 3, []⟩], some 476, none⟩ rfl (by decide)
+    (by intro ob hob
+        simp only [List.mem_cons, Line.obj.injEq, List.not_mem_nil, or_false] at hob
+        rcases hob with rfl | rfl <;> decide)
+    (by simp) (by decide) (by decide)
+  exact absurd this (by decide)
+
+/-- **suppressions are applied to addon findings like to any other finding**: whatever the matcher `supp` is
+    (it sees the id, the file and line of the last location, the hash — `SuppView`, the same view as for a
+    built-in finding), a finding it matches is never printed, and a finding it does not match is printed
+    (represented by the first finding with its rendered text) for every output, failed or not -/
+theorem relayShown_suppressions (o : Opts) (supp : SuppView → Bool) (lines : List Line) :
+    (∀ g ∈ relayShown o supp lines, supp g.suppView = false ∧ g.sev ≠ .internal ∧ g ∈ (relay o lines).findings) ∧
+    (∀ f ∈ (relay o lines).findings, f.sev ≠ .internal → supp f.suppView = false →
+      ∃ g ∈ relayShown o supp lines, g.key = f.key) := by
+  constructor
+  · intro g hg
+    have := (dedup_sublist _).subset hg
+    simp only [List.mem_filter, Bool.and_eq_true, decide_eq_true_eq, Bool.not_eq_true'] at this
+    exact ⟨this.2.2, this.2.1, this.1⟩
+  · intro f hf hs hsup
+    apply dedup_complete
+    simp [List.mem_filter, hf, hs, hsup]
+
+/-- a suppressed finding does not use up the rendered text: an unsuppressed finding that renders to the same text
+    (possible only with a hash-specific suppression) is still printed -/
+theorem relayShown_filter_before_dedup (o : Opts) (supp : SuppView → Bool) (lines : List Line) :
+    relayShown o supp lines = dedup ((relay o lines).findings.filter (printable supp)) := rfl
+
+/-- exit status: `--error-exitcode` iff something was printed (an addon finding or the internalError) -/
+theorem exitStatus_iff (e : Nat) (he : e ≠ 0) (o : Opts) (supp : SuppView → Bool) (file0 : Str) (lines : List Line) :
+    exitStatus e o supp file0 lines = e ↔ (internalErrorShown o supp file0 lines = true ∨ relayShown o supp lines ≠ []) := by
+  unfold exitStatus
+  cases h1 : internalErrorShown o supp file0 lines <;> cases h2 : relayShown o supp lines <;> simp [Ne.symm he]
 
 /-- a summary line as addons print it -/
 def mkSummary (name : Str) : ObjLine :=
   { fields := [("summary".toList, .str name), ("data".toList, .other)], loc := .absent, metric := none }
 
-theorem summaryObjs_all_summaries (o : Opts) : ∀ names : List Str,
-    summaryObjs o (names.map mkSummary) = names.map mkSummary := by
-  intro names
-  induction names with
-  | nil => rfl
-  | cons n r ih => simp [summaryObjs, mkSummary, has, lookup] at *; exact ih
+def isSummary (ob : ObjLine) : Bool := has "summary" ob.fields
 
 theorem validate_objs (objs : List ObjLine) : validate (objs.map Line.obj) = some objs := by
   induction objs with
   | nil => rfl
   | cons o r ih => simp [validate, ih]
 
-/-- **summaries of every addon reach whole-program analysis**: when each of any number of addons
-    prints only summary lines (any number each) and exits 0, the ctu-info of the file is the
-    concatenation of all of them, in addon order — nothing of an earlier addon is lost -/
-theorem ctuInfo_all_addons (o : Opts) (hx : o.exitcode = 0) (outs : List (List Str)) :
-    ctuInfo o (outs.map fun names => (names.map mkSummary).map Line.obj) = (outs.flatMap id).map mkSummary := by
-  induction outs with
-  | nil => rfl
-  | cons names r ih =>
-    simp only [ctuInfo, List.map_cons, List.flatMap_cons] at *
-    rw [ih]
-    have h1 : summaries o ((names.map mkSummary).map Line.obj) = names.map mkSummary := by
-      simp only [summaries, hx, ne_eq, not_true_eq_false, if_false]
-      rw [validate_objs]
-      exact summaryObjs_all_summaries o names
-    simp only [List.map_map] at h1 ⊢
-    simp [h1]
+/-- **summaries of every addon reach whole-program analysis — general form**: for any number of addons, each
+    printing ANY lines (summaries interleaved with findings, skipped lines, even a non-brace line or a failing
+    exit status - such an addon contributes nothing), as long as no object has a missing / ill-typed member:
+    the ctu-info of the file is the concatenation, in addon order, of all summary objects of every addon's
+    accepted output, with and without a build dir — nothing of an earlier addon is lost -/
+theorem ctuInfo_general (bd : Bool) (o : Opts) : ∀ outs : List (List Line),
+    (∀ out ∈ outs, throws o (addonObjs o out) = false) →
+    ctuInfo bd o outs = outs.flatMap fun out => (addonObjs o out).filter isSummary := by
+  intro outs h
+  have hc : ∀ outs : List (List Line), (∀ out ∈ outs, throws o (addonObjs o out) = false) →
+      ctuCollect o outs = (outs.flatMap fun out => (addonObjs o out).filter isSummary, false) := by
+    intro outs
+    induction outs with
+    | nil => intro _; rfl
+    | cons out r ih =>
+      intro h
+      have h1 := h out (by simp)
+      have h2 := ih (fun x hx => h x (by simp [hx]))
+      simp only [ctuCollect, h1, Bool.false_eq_true, if_false, h2, List.flatMap_cons]
+      have : summaries o out = (addonObjs o out).filter isSummary := by
+        simp only [summaries, summaryObjs_eq]
+        rw [takeWhile_eq_self_of_all]
+        · rfl
+        · intro ob hob
+          have := (throws_false_iff o _).mp h1 ob hob
+          simpa using this
+      rw [this]
+  simp [ctuInfo, hc outs h]
+
+/-- the instance of the general form the first version of this check proved: addons printing only summaries -/
+theorem ctuInfo_all_addons (bd : Bool) (o : Opts) (hx : o.exitcode = 0) (outs : List (List Str)) :
+    ctuInfo bd o (outs.map fun names => (names.map mkSummary).map Line.obj) = (outs.flatMap id).map mkSummary := by
+  have hobjs : ∀ names : List Str, addonObjs o ((names.map mkSummary).map Line.obj) = names.map mkSummary := by
+    intro names
+    simp only [addonObjs, hx, ne_eq, not_true_eq_false, if_false, validate_objs, Option.getD_some]
+  have hsum : ∀ names : List Str, (names.map mkSummary).filter isSummary = names.map mkSummary := by
+    intro names; induction names with
+    | nil => rfl
+    | cons n r ih => simp [isSummary, mkSummary, has, lookup] at ih ⊢
+  rw [ctuInfo_general]
+  · induction outs with
+    | nil => rfl
+    | cons names r ih => simp only [List.map_cons, List.flatMap_cons, hobjs, hsum, ih, List.map_append, id]
+  · intro out hout
+    simp only [List.mem_map] at hout
+    obtain ⟨names, _, rfl⟩ := hout
+    rw [hobjs, throws_false_iff]
+    intro ob hob
+    simp only [List.mem_map] at hob
+    obtain ⟨n, _, rfl⟩ := hob
+    simp [convert, mkSummary, has, lookup]
+
+/-- an ill-typed object ends the per-file addon phase: with a build dir NO summary of the file is forwarded (the
+    string collected so far is never written), without one those seen before it are (they were reported one by
+    one).  Model = code; the property text does not say what should happen, this is stated for the record. -/
+theorem ctuInfo_throw_example :
+    let bad : ObjLine := ⟨[("file".toList, .str "t.c".toList), ("linenr".toList, .str "1".toList)], .absent, none⟩
+    let outs : List (List Line) := [[.obj (mkSummary "A".toList), .obj bad, .obj (mkSummary "B".toList)], [.obj (mkSummary "C".toList)]]
+    ctuInfo true ⟨fun _ => true, 0⟩ outs = [] ∧ ctuInfo false ⟨fun _ => true, 0⟩ outs = [mkSummary "A".toList] := by
+  decide
+
+/-! ### raw text -/
+
+/-- the only line class that turns the whole output into an internal error, spelled out on the raw text: a
+    non-empty line that neither starts with `Checking ` nor with `{` (leading blanks, `[1]`, `Checking` without
+    blank, a lone carriage return …) -/
+theorem lineOf_notBrace_iff (parse : Str → Option ObjLine) (s : Str) :
+    lineOf parse s = .notBrace ↔ s ≠ [] ∧ "Checking ".toList.isPrefixOf s = false ∧ s.head? ≠ some '{' := by
+  unfold lineOf rawKind
+  generalize "Checking ".toList = pre
+  cases s with
+  | nil => simp
+  | cons c r =>
+    simp only [ne_eq, reduceCtorEq, not_false_eq_true, List.head?_cons, Option.some.injEq, true_and]
+    cases hp : pre.isPrefixOf (c :: r)
+    · by_cases hc : c = '{'
+      · subst hc; cases parse ('{' :: r) <;> simp
+      · simp [hc]
+    · simp
+
+/-- whatever the JSON parser says, it is consulted only for lines starting with `{`, and its verdict only
+    decides between a skipped line and an object line -/
+theorem lineOf_brace (parse : Str → Option ObjLine) (r : Str) :
+    lineOf parse ('{' :: r) = (match parse ('{' :: r) with | none => .badJson | some ob => .obj ob) := by
+  have : "Checking ".toList.isPrefixOf ('{' :: r) = false := rfl
+  simp only [lineOf, rawKind, this]
+  cases parse ('{' :: r) <;> simp
 
 /-! non-vacuity -/
 def optsAll : Opts := ⟨fun _ => true, 0⟩
@@ -293,5 +585,18 @@ example : relay optsAll [.checking, .obj (mkLine "my".toList "e1".toList "m".toL
     = .ok [⟨"my-e1".toList, .style, "m".toList, [⟨"t.c".toList, 1, 3, []⟩], none, none⟩] := by decide
 example : relay optsAll [.obj (mkLine "my".toList "e1".toList "m".toList "style".toList "t.c".toList 1 3), .notBrace]
     = .failed [] := by decide
+-- a multi-location line (hypotheses of `convert_general` are satisfiable)
+example : convert optsAll ⟨[("severity".toList, .str "style".toList), ("extra".toList, .other), ("addon".toList, .str "my".toList),
+      ("message".toList, .str "m".toList), ("errorId".toList, .str "e".toList), ("cwe".toList, .int 398)],
+      .arr [some [("file".toList, .str "t.c".toList), ("linenr".toList, .int 1), ("column".toList, .int 2), ("info".toList, .str "n".toList)],
+            some [("info".toList, .str []), ("column".toList, .int 4), ("linenr".toList, .int 3), ("file".toList, .str "h.h".toList)]], none⟩
+    = .report ⟨"my-e".toList, .style, "m".toList, [⟨"t.c".toList, 1, 2, "n".toList⟩, ⟨"h.h".toList, 3, 4, []⟩], some 398, none⟩ := by decide
+-- suppression by id: the suppressed finding is gone, the other one stays
+example : relayShown optsAll (fun v => v.id = "my-e1".toList)
+    [.obj (mkLine "my".toList "e1".toList "m".toList "style".toList "t.c".toList 1 3),
+     .obj (mkLine "my".toList "e2".toList "m".toList "style".toList "t.c".toList 1 3)]
+    = [⟨"my-e2".toList, .style, "m".toList, [⟨"t.c".toList, 1, 3, []⟩], none, none⟩] := by decide
+example : linesOf (fun _ => none) "a\n\nChecking x\n{".toList = [.notBrace, .empty, .checking, .badJson] := by decide
+example : outClass optsAll [.badJson, .obj (mkSummary "s".toList)] = .skippedLines := by decide
 
 end Cppcheck.Addon
